@@ -890,6 +890,22 @@ func genRnd(e *emitter, r *rng, n int) {
 	}
 }
 
+// DST slices carved out of a caller's backing array in many layouts (C15): interior slices, len < cap, len == cap
+func genMemVet(e *emitter, r *rng, n int) {
+	lens := []int{1, 2, 16, 31, 32, 33, 254, 255, 256, 257, 300}
+	for guard := 0; e.n < n && guard < 200*n+1000; guard++ {
+		ln := lens[r.intn(len(lens))]
+		if r.intn(3) == 0 {
+			ln = 1 + r.intn(300)
+		}
+		off := []int{0, 0, 1, 5, 17}[r.intn(5)]
+		spare := []int{0, 0, 1, 1, 2, 8, 40, 300}[r.intn(8)]
+		tail := []int{0, 0, 3, 9}[r.intn(4)]
+		back := r.bytes(off + ln + spare + tail)
+		e.line("MEM.vet", showB(back), fmt.Sprint(off), fmt.Sprint(ln), fmt.Sprint(spare))
+	}
+}
+
 func genH2S(e *emitter, r *rng, n int) {
 	for guard := 0; e.n < n && guard < 200*n+1000; guard++ {
 		e.line("H2C.h2s", showB(r.msg()), showB(r.dst(true)))
@@ -1015,6 +1031,8 @@ func genOps(family string, seed uint64, n int) {
 		genH2S(e, r, n)
 	case "rnd":
 		genRnd(e, r, n)
+	case "memvet":
+		genMemVet(e, r, n)
 	case "chosenu":
 		genChosenU(e, r, n)
 	case "history":
